@@ -81,6 +81,24 @@ def findStar : Nat → Nat → Bytes → Bytes → Outcome Bytes
 /-- skip a comment; the stream is at the `*` of `/*` (the `/` has been read, the `*` only peeked) -/
 def skipComment (fuel : Nat) (s : Bytes) : Outcome Bytes := findStar fuel 0 s s
 
+/-- `sectionReader::skipWSandComments`: white space, then any number of comments -/
+def skipWSC : Nat → Bytes → Outcome Bytes
+  | 0, _ => .outOfFuel
+  | f + 1, s =>
+    match skipWS s with
+    | '/' :: '*' :: r =>
+      (match skipComment f ('*' :: r) with
+       | .ok r' => skipWSC f r'
+       | .fail => .ok []
+       | .crash => .crash
+       | .outOfFuel => .outOfFuel)
+    | s' => .ok s'
+
+/-- what the scanner skips between two tokens where Part 21 allows comments (`)` `;`, id `=`, before `ENDSEC`):
+    white space only in the old code, white space and comments in the repaired one (regenerated flag) -/
+def betweenTokens (fuel : Nat) (s : Bytes) : Outcome Bytes :=
+  if tokenComments then skipWSC fuel s else .ok (skipWS s)
+
 /-- decimal value of a digit string (what `strtoull` / `operator>>` compute, before range checks) -/
 def digitsVal (ds : Bytes) : Nat := ds.foldl (fun n c => 10 * n + (c.toNat - '0'.toNat)) 0
 
@@ -101,12 +119,15 @@ def readInstanceNumber (fuel : Nat) (s : Bytes) : Outcome (Nat × Bytes) :=
     | '#' :: r =>
       let (ds, t) := takeDigits (skipWS r)
       if ds.length > instanceIdDigits then .ok (0, t)
-      else match skipWS t with
-        | '=' :: u =>
+      else match betweenTokens fuel t with
+        | .ok ('=' :: u) =>
           if ds.length == 0 then .ok (0, u)
           else if digitsVal ds == 0 then .crash            -- assert( id > 0 )
           else .ok (min (digitsVal ds) instanceIdMax, u)   -- strtoull saturates
-        | u => .ok (0, u)
+        | .ok u => .ok (0, u)
+        | .fail => .ok (0, [])
+        | .crash => .crash
+        | .outOfFuel => .outOfFuel
     | r => .ok (0, r)
   | .fail => .ok (0, [])
   | .crash => .crash
@@ -133,7 +154,7 @@ def getDelimitedKeyword (fuel : Nat) (delims : Bytes) (s : Bytes) : Outcome (Byt
   match kwLoop fuel [] (skipWS s) with
   | .ok (kw, r) =>
     match r with
-    | c :: _ => if delims.contains c then .ok (kw, r) else .crash
+    | c :: _ => if delims.contains c || (kwSpaceDelim && isSpace c) then .ok (kw, r) else .crash
     | [] => .crash
   | .fail => .fail
   | .crash => .crash
@@ -166,10 +187,13 @@ def seekEnd : Nat → Int → List Nat → Bytes → Outcome (List Nat × Bytes)
       | [] => .fail
     else if c == ')' then
       (if d - 1 == 0 then
-        match skipWS r with
-        | ';' :: t => .ok (refs.reverse, t)
-        | [] => .fail
-        | r1 => seekEnd f (d - 1) refs r1
+        match betweenTokens f r with
+        | .ok (';' :: t) => .ok (refs.reverse, t)
+        | .ok [] => .fail
+        | .ok r1 => seekEnd f (d - 1) refs r1
+        | .fail => .fail
+        | .crash => .crash
+        | .outOfFuel => .outOfFuel
        else seekEnd f (d - 1) refs r)
     else seekEnd f d refs r
 
@@ -200,9 +224,9 @@ def nextInstance (fuel : Nat) (s : Bytes) : Outcome (Option (Entry × Bytes)) :=
   | .outOfFuel => .outOfFuel
 
 /-- after the last instance: `ENDSEC` ws `;` -/
-def sectionEnd (s : Bytes) : Bool :=
-  match skipWS s with
-  | 'E' :: 'N' :: 'D' :: 'S' :: 'E' :: 'C' :: r =>
+def sectionEnd (fuel : Nat) (s : Bytes) : Bool :=
+  match betweenTokens fuel s with
+  | .ok ('E' :: 'N' :: 'D' :: 'S' :: 'E' :: 'C' :: r) =>
     (match skipWS r with | ';' :: _ => true | _ => false)
   | _ => false
 
@@ -212,7 +236,7 @@ def scanLoop : Nat → Nat → Bytes → List Entry → Outcome (List Entry × B
   | n + 1, fuel, s, acc =>
     match nextInstance fuel s with
     | .ok (some (e, r)) => scanLoop n fuel r (e :: acc)
-    | .ok none => .ok (acc.reverse, sectionEnd s)
+    | .ok none => .ok (acc.reverse, sectionEnd fuel s)
     | .fail => .fail
     | .crash => .crash
     | .outOfFuel => .outOfFuel
